@@ -64,6 +64,9 @@ func openFlags(k int) int {
 	if k&32 != 0 {
 		f |= os.O_EXCL
 	}
+	if k&64 != 0 {
+		f |= os.O_SYNC
+	}
 	return f
 }
 
